@@ -164,8 +164,23 @@ class Gen:
             used_elsewhere = any(c["ins"][-1] in (x["ins"] + x["outs"]) for m, x in d["cmds"].items() if m != n)
             if len(c["ins"]) >= 2 and c["ins"][-1] in self.sources and not used_elsewhere:
                 x = c["ins"].pop(); c["outs"].insert(0, x)
-        # keep targets buildable: drop target nodes nobody produces and that do not exist as sources
+        if not self.well_formed(d): return copy.deepcopy(desc), "none"      # (cycles are C07's subject, double producers an error case)
         return d, k
+
+    @staticmethod
+    def well_formed(d):
+        prod = {}
+        for n, x in d["cmds"].items():
+            for o in x["outs"]:
+                if o in prod: return False
+                prod[o] = n
+        g = {n: [prod[i] for i in x["ins"] + x["reads"] if i in prod] for n, x in d["cmds"].items()}
+        state = {}
+        def dfs(u):
+            if state.get(u) == 1: return True
+            if state.get(u) == 2: return False
+            state[u] = 1; r = any(dfs(v) for v in g[u]); state[u] = 2; return r
+        return not any(dfs(n) for n in g)
 
     # ------------------------------------------------------------------ histories
     def history(self):
